@@ -172,6 +172,7 @@ func runVariants(repo, prop string, def propDef, r *Report) {
 		}
 		// fresh caches for the new program
 		unitCallMemo = map[string][]unit{}
+		unitCallSinks = map[string][]unitSink{}
 		r2 := NewReport(prop, "thorough")
 		func() {
 			defer func() {
